@@ -47,6 +47,9 @@ MANIFEST = {
 
 MULTI = ["sum", "prod", "min", "max", "mean", "std", "var"]
 BINARY = ["add", "subtract", "multiply", "divide", "pow"]
+import operator as _operator  # noqa: E402
+
+PYBIN = {"add": _operator.add, "subtract": _operator.sub, "multiply": _operator.mul, "divide": _operator.truediv, "pow": _operator.pow}
 NPBIN = {"add": np.add, "subtract": np.subtract, "multiply": np.multiply, "divide": np.divide, "pow": np.power}
 DTYPES = ["int64", "float64", "float32", "int8", "uint8", "int16", "int32", "uint16", "bool"]
 DIMS = ["d0", "d1", "d2"]
@@ -197,12 +200,23 @@ def _call(f, *a, **k):
         return f(*a, **k)
 
 
-def _differential(what, backend_call, numpy_call, approx=False, dims_expected=None):
+def _differential(what, backend_call, numpy_call, approx=False, dims_expected=None, numpy_alt=None):
+    """numpy_alt: a second way NumPy itself computes the same thing (the Python operator next to the ufunc). Where NumPy's two
+    ways disagree with each other (bool ** 2 is int8 through the operator's square fast path, int64 through np.power) either answer
+    is NumPy's."""
     try:
         exp = _call(numpy_call)
         exp_err = None
     except Exception as e:
         exp, exp_err = None, e
+    if numpy_alt is not None and exp_err is None:
+        try:
+            alt = _call(numpy_alt)
+            got0 = _call(backend_call)
+            if np.asarray(alt).dtype != np.asarray(exp).dtype and np.asarray(_raw(got0)).dtype == np.asarray(alt).dtype:
+                exp = alt
+        except Exception:  # noqa: BLE001 -- judged below against the primary expectation
+            pass
     try:
         got = _call(backend_call)
         got_err = None
@@ -280,7 +294,8 @@ def run_case(c) -> tuple[bool, list[str]]:
             b = _mk(c["data"][1], c["shape2"], dt, fl)
             braw = _raw(b)
         f = getattr(backends, op)
-        r = _differential(what + f" mode={c['mode']}", lambda: f(a, b), lambda: NPBIN[op](_raw(a), braw), approx=(op == "divide"))
+        r = _differential(what + f" mode={c['mode']}", lambda: f(a, b), lambda: NPBIN[op](_raw(a), braw), approx=(op == "divide"),
+                          numpy_alt=lambda: PYBIN[op](_raw(a), braw))
         classes += [r, "mode:" + c["mode"]]
         nt = op in ("subtract", "divide", "pow") and r == "agree" and _size(shape) >= 2
     elif kind == "take":
